@@ -95,6 +95,24 @@ func BuildMsg(n *wire.N, h Hist) (util.Message, error) {
 			setData()
 		}
 		for _, c := range n.L["Actions"] {
+			if h.LateGrow && c.K == "nx_ct" && len(c.L["Actions"]) > 0 {
+				bare := c.Clone()
+				delete(bare.L, "Actions")
+				a, err := BuildAction(bare, h)
+				if err != nil {
+					return nil, err
+				}
+				m.AddAction(a)
+				ct := a.(*of.NXActionConnTrack)
+				for _, k := range c.L["Actions"] {
+					ka, err := BuildAction(k, h)
+					if err != nil {
+						return nil, err
+					}
+					ct.AddAction(ka)
+				}
+				continue
+			}
 			a, err := BuildAction(c, h)
 			if err != nil {
 				return nil, err
